@@ -146,13 +146,13 @@ func PDeg(big bool) []s2.Point {
 	}
 	for _, a := range vals {
 		for _, c := range vals {
-			add(0, a, c)    // x = 0
-			add(a, 0, c)    // y = 0
-			add(a, c, 0)    // z = 0
-			add(a, a, c)    // x = y
-			add(a, -a, c)   // x = -y
-			add(a, c, a)    // x = z
-			add(c, a, a)    // y = z
+			add(0, a, c)  // x = 0
+			add(a, 0, c)  // y = 0
+			add(a, c, 0)  // z = 0
+			add(a, a, c)  // x = y
+			add(a, -a, c) // x = -y
+			add(a, c, a)  // x = z
+			add(c, a, a)  // y = z
 			if big {
 				add(2*a, a, c) // x = 2y
 				add(-a, c, -a)
@@ -183,9 +183,9 @@ func PDeg(big bool) []s2.Point {
 // PTiny returns points (1,y,z) and permutations with tiny y, z: unit within
 // tolerance, separations from 1e-300 upward.
 func PTiny(big bool) []s2.Point {
-	eps := []float64{0, 5e-324, 1e-300, 1e-100, 1e-15}
+	eps := []float64{0, 5e-324, 1e-300, 1e-160, 1e-100, 1e-15}
 	if big {
-		eps = []float64{0, 5e-324, 1e-300, 1e-200, 1e-100, 1e-30, 1e-15, 1e-8}
+		eps = []float64{0, 5e-324, 1e-300, 1e-200, 1e-160, 1e-100, 1e-30, 1e-15, 1e-8}
 	}
 	var out []s2.Point
 	for _, y := range eps {
